@@ -15,7 +15,8 @@ NoY  == <<<<"x", Hash(<< <<"a", Hash(<< <<"b", Str("B")>> >>)>>, <<"l", Arr(<<In
 None == <<>>
 MCData == {<<d, <<>>, <<>>, <<>>>> : d \in {Full, NoB, NoA, NoX, NoY, None}}
 MCCfgs == {Cfg("+", TRUE, FALSE, "default")}
-MCPartials == << <<"p", <<NText("[p:"), NOut(P(V("v"))), NText("]")>>>> >>
+MCPartials == << <<"p", <<NText("[p:"), NOut(P(V("v"))), NText("]")>>>>,
+                 <<"q", <<NText("[q:"), If(FalseE, <<NOut(P(V("v")))>>, <<>>, NoElse), NText("]")>>>> >>
 
 X == V("x")
 Y == V("y")
@@ -54,6 +55,15 @@ Tags == {If(c, <<NText("T")>>, <<>>, Else(<<NText("F")>>)) : c \in Conds}
                        <<Macro("m", <<Param("a")>>, <<NOut(P(V("a")))>>), Call("m", <<V("i")>>, <<>>)>>,
                        <<For("j", VP("x", "l"), "x.l", NoOpt, NoOpt, FALSE, <<NOut(P(V("j"))), NOut(P(Path(<<Key("forloop"), Key("parentloop"), Key("index")>>)))>>, NoElse)>>,
                        <<RenderT(S("p"), "for", VP("x", "l"), "v", <<>>)>>}}
+        \* first / last / size of what is not a list: the pairs a hash iterates as, a range bound to a name
+        \cup {For("p", X, "x", NoOpt, NoOpt, FALSE, <<NOut(P(VP("p", "first"))), NText(":"), NOut(P(VP("p", "size"))), NText(";")>>, NoElse),
+              With(<<WArg("r", RangeE(I(1), I(3)))>>, <<NOut(P(VP("r", "first"))), NOut(P(VP("r", "last"))), NOut(P(VP("r", "size")))>>),
+              With(<<WArg("r", RangeE(I(1), XL0))>>, <<NOut(P(VP("r", "last")))>>),
+              NOut(P(Path(<<Key("x"), Key("first"), Key("first")>>))), NOut(P(Path(<<Key("x"), Key("l"), Key("last")>>)))}
+        \* an undefined that is bound and never read, or read only where the render does not go
+        \cup {With(<<WArg("w", XL9)>>, <<If(FalseE, <<NOut(P(V("w")))>>, <<>>, NoElse), NText("in")>>),
+              RenderT(S("q"), "none", NilE, "", <<WArg("v", XL9), WArg("u", V("nosuch"))>>),
+              Include(S("q"), "none", NilE, "", <<WArg("v", XL9)>>), RenderT(S("q"), "with", XL9, "v", <<>>)}
         \cup {Include(V("nosuch"), "none", NilE, "", <<>>), With(<<WArg("w", XL9)>>, <<NText("in"), NOut(P(Y))>>),
               With(<<WArg("w", XL9)>>, <<NOut(P(V("w")))>>), Capture("z", <<NOut(P(XL9))>>)}
 MCPool == Outs \cup Tags
